@@ -107,12 +107,21 @@ package xbus
 //@   before select#1 assert selwaits(s.sizeQ) && selwaits(s.recvQ)
 //@
 // ---- end generated current-queue contracts ----
+//@
+//@ func (*pipe).sender
+//@   loop 1 invariant evcount("sent") == 0
+//@   ensures evcount("sent") == 0
 // ---- generated AddPipe contracts (tools/gen_addpipe_contracts.py) ----
 //@ func (*socket).AddPipe
 //@   ghost wasClosed = s.closed at call:Lock#1
 //@   ensures wasClosed ==> result == protocol.ErrClosed && !spawned("receiver") && !spawned("sender")
 //@   ensures !wasClosed && isnil(result) ==> spawned("receiver") && spawned("sender") && has(s.pipes, pp.ID())
 //@   ensures !wasClosed ==> isnil(result)
+//@   before go:sender#1 assert fresh(p.sendQ) && fresh(p.closeQ)
 //@   before call:SetPrivate#1 assert p.p == pp && p.s == s
 //@
 // ---- end generated AddPipe contracts ----
+//@
+//@ func (*socket).SetOption
+//@   ensures (name == protocol.OptionReadQLen) && isnil(result) ==> evcount("closed") == 1
+//@   ensures !isnil(result) ==> evcount("closed") == 0
